@@ -169,4 +169,54 @@ def parseFloat (s : Str) : Option Num :=
       else some (.fin neg (digitsVal (i ++ f)) (e - f.length))
     | _, _, _ => none
 
+/-! ### formatting numbers -/
+
+def pow10 (n : Nat) : Nat := 10 ^ n
+
+/-- `format(x, '.df')` of the exact value `(-1)^neg · m · 10^e`: the integer `n` with
+`n / 10^d` the value rounded half-even to `d` decimals -/
+def scaledRound (d : Nat) (m : Nat) (e : Int) : Nat :=
+  let s : Int := e + d
+  if 0 ≤ s then m * pow10 s.toNat
+  else
+    let k := (-s).toNat
+    let p := pow10 k
+    let q := m / p
+    let r := m % p
+    if 2 * r > p then q + 1
+    else if 2 * r = p then (if q % 2 = 0 then q else q + 1)
+    else q
+
+/-- the digits of `n` left-padded with zeros to width `w` -/
+def zeroPad (w : Nat) (s : Str) : Str := List.replicate (w - s.length) '0' ++ s
+
+/-- text of a scaled integer `n` (value `n / 10^d`) -/
+def fixedStr (d : Nat) (neg : Bool) (n : Nat) : Str :=
+  (if neg then ['-'] else []) ++ natStr (n / pow10 d) ++
+    (if d = 0 then [] else '.' :: zeroPad d (natStr (n % pow10 d)))
+
+def fmtFixed (d : Nat) : Num → Str
+  | .fin neg m e => fixedStr d neg (scaledRound d m e)
+  | .inf neg => if neg then "-inf".toList else "inf".toList
+  | .nan => "nan".toList
+
+/-- the value `fmtFixed d x` denotes -/
+def roundNum (d : Nat) : Num → Num
+  | .fin neg m e => .fin neg (scaledRound d m e) (-(d : Int))
+  | x => x
+
+def Num.isZero : Num → Bool
+  | .fin _ m _ => m == 0
+  | _ => false
+
+/-- `c = self.atomic_charges[i] or 0.0` -/
+def chargeOr0 (x : Num) : Num := if x.isZero then .fin false 0 0 else x
+
+/-- exact value of a finite number -/
+def Num.toRat : Num → Rat
+  | .fin neg m e =>
+    let v : Rat := if 0 ≤ e then ((m * pow10 e.toNat : Nat) : Rat) else mkRat m (pow10 (-e).toNat)
+    if neg then -v else v
+  | _ => 0
+
 end Molli.Model.Text
